@@ -51,8 +51,12 @@ Print Assumptions C05_slice_overflow_fixed.
 Theorem C05_index_spec : forall (A : Type) m (l : list A) i,
   zlen l <= MAX64 -> in_i64 i ->
   list_get m l i = (match py_index l i with Some v => OVal v | None => OIndexErr end) /\
+  list_get_mut m l i = (match py_index l i with Some v => OVal v | None => OIndexErr end) /\
   str_char_at m l i = (match py_index l i with Some v => OVal v | None => OIndexErr end).
-Proof. intros; split; [exact (list_get_spec m l i H H0) | exact (str_char_at_spec m l i H H0)]. Qed.
+Proof.
+  intros; split; [exact (list_get_spec m l i H H0)|].
+  split; [exact (list_get_mut_spec m l i H H0) | exact (str_char_at_spec m l i H H0)].
+Qed.
 Print Assumptions C05_index_spec.
 
 (* P5  range(a, b, c) yields exactly Python's range for ALL i64 triples with c <> 0 (first n
